@@ -15,18 +15,18 @@ Proof.
   apply andb_true_iff in H as [H1 H2]. rewrite H1. cbn. apply (IH a b H2). lia.
 Qed.
 
-Lemma decode_fields_few : forall G bs rawlen enc fields, (length fields < 3)%nat ->
-  decode_fields G bs true rawlen 0 enc fields = Ok (None, 0%Z, None).
+Lemma decode_fields_few : forall G bs rawlen idx enc fields, (length fields < 3)%nat ->
+  decode_fields G bs true rawlen idx enc fields = Ok (None, Z.of_nat idx, None).
 Proof.
-  intros G bs rawlen enc fields H. destruct fields as [|a [|b [|c r]]]; try reflexivity. cbn in H. lia.
+  intros G bs rawlen idx enc fields H. destruct fields as [|a [|b [|c r]]]; try reflexivity. cbn in H. lia.
 Qed.
 
-Lemma decode_fields_short : forall G bs rawlen enc t0 f1v bl Y,
+Lemma decode_fields_short : forall G bs rawlen idx enc t0 f1v bl Y,
   cfree 61 t0 -> py_int f1v = Some bl ->
   (rawlen < zlen (field t0 bs) + zlen (field T9 f1v) + 9 + bl)%Z ->
-  decode_fields G bs true rawlen 0 enc (field t0 bs :: field T9 f1v :: Y) = Ok (None, 0%Z, None).
+  decode_fields G bs true rawlen idx enc (field t0 bs :: field T9 f1v :: Y) = Ok (None, Z.of_nat idx, None).
 Proof.
-  intros G bs rawlen enc t0 f1v bl Y Ht0 Hbl Hlen.
+  intros G bs rawlen idx enc t0 f1v bl Y Ht0 Hbl Hlen.
   destruct Y as [|y ys]; [reflexivity|].
   unfold decode_fields.
   unfold field at 1. rewrite (split1_field 61 t0 bs Ht0). rewrite str_eqb_refl. cbn [negb].
@@ -61,22 +61,19 @@ Qed.
 Lemma cfree_prefix : forall c a b, cfree c (a ++ b) -> cfree c a.
 Proof. intros c a b H. apply cfree_app in H. tauto. Qed.
 
-(* wait lemma: a proper prefix (at least 6 bytes) of a good frame is left in the buffer *)
-Lemma frame_ok_wait : forall G bs F dm P Q,
-  frame_ok G bs F dm -> F = P ++ Q -> Q <> [] -> (6 <= length P)%nat ->
-  decode G bs P true = Ok (None, 0%Z, None).
+(* the field list of any proper prefix of a good frame is rejected as incomplete, whatever offset it
+   has in the buffer, as long as the buffer is shorter than the frame's declared length *)
+Lemma wait_fields : forall G bs F dm P Q rawlen idx,
+  frame_ok G bs F dm -> F = P ++ Q -> Q <> [] -> (rawlen < zlen F)%Z ->
+  decode_fields G bs true rawlen idx P (fields_of P) = Ok (None, Z.of_nat idx, None).
 Proof.
-  intros G bs F dm P Q [f1v [f2 [rest [bl [st H]]]]] EF HQ HP. cbv zeta in H.
-  destruct H as [HF [Hsoh [Hmark [Hnom [Hbl [Hlen _]]]]]].
-  assert (HmP : prefixb MARK P = true) by (rewrite EF in Hmark; apply (prefixb_app_short _ _ _ Hmark); exact HP).
-  assert (HnP : find_sub MARK (skipn 5 P) = None).
-  { rewrite EF, (skipn_app_le 5 P Q) in Hnom by lia. apply (find_sub_none_prefix _ _ _ Hnom). }
-  rewrite (decode_nocut G bs P true HmP HnP). rewrite fields_of_strip.
+  intros G bs F dm P Q rawlen idx [f1v [f2 [rest [bl [st H]]]]] EF HQ Hraw. cbv zeta in H.
+  destruct H as [HF [Hsoh [_ [_ [Hbl [Hlen _]]]]]].
+  rewrite fields_of_strip.
   pose proof (Forall_inv Hsoh) as S0. pose proof (Forall_inv (Forall_inv_tail Hsoh)) as S1.
-  assert (HlenP : (zlen P < zlen (field T8 bs) + zlen (field T9 f1v) + 9 + bl)%Z).
-  { rewrite Hlen, EF, zlen_app. unfold zlen. destruct Q; [contradiction|]. cbn [length]. lia. }
+  assert (HlenP : (rawlen < zlen (field T8 bs) + zlen (field T9 f1v) + 9 + bl)%Z) by (rewrite Hlen; exact Hraw).
   assert (H1 : P ++ Q = flat (field T8 bs :: field T9 f1v :: f2 :: rest)) by congruence.
-  clear Hmark Hnom Hlen EF HF Hsoh.
+  clear Hlen EF HF Hsoh.
   remember (field T8 bs) as f0 eqn:Ef0. remember (field T9 f1v) as f1 eqn:Ef1.
   rewrite (flat_cons f0), (flat_cons f1) in H1. remember (flat (f2 :: rest)) as R eqn:ER. clear ER.
   apply app_eq_app in H1 as [l [[E1 E2]|[E1 E2]]].
@@ -97,11 +94,34 @@ Proof.
         -- cbn [app] in E4. injection E4 as Ec E4. subst c l P.
            rewrite (split_on_app_sep 1 _ _ S0), (split_on_app_sep 1 _ _ S1).
            destruct (strip_last_two f0 f1 (split_on 1 l2) (split_on_nonempty 1 l2)) as [Y EY].
-           rewrite EY. subst f0 f1. apply (decode_fields_short G bs _ _ T8 f1v bl Y); try assumption.
+           rewrite EY. subst f0 f1. apply (decode_fields_short G bs _ _ _ T8 f1v bl Y); try assumption.
            apply cfreeb_spec. reflexivity.
   - (* f0 = P ++ l *)
     rewrite E1 in S0. rewrite (split_on_free 1 _ (cfree_prefix _ _ _ S0)).
     apply decode_fields_few. apply Nat.lt_succ_r. apply strip_last_short. cbn. lia.
+Qed.
+
+
+Lemma frame_ok_prefix_marks : forall G bs F dm P Q,
+  frame_ok G bs F dm -> F = P ++ Q -> (6 <= length P)%nat ->
+  prefixb MARK P = true /\ find_sub MARK (skipn 5 P) = None.
+Proof.
+  intros G bs F dm P Q [f1v [f2 [rest [bl [st H]]]]] EF HP. cbv zeta in H.
+  destruct H as [_ [_ [Hmark [Hnom _]]]]. split.
+  - rewrite EF in Hmark. apply (prefixb_app_short _ _ _ Hmark). exact HP.
+  - rewrite EF, (skipn_app_le 5 P Q) in Hnom by lia. apply (find_sub_none_prefix _ _ _ Hnom).
+Qed.
+
+(* wait lemma: a proper prefix (at least 6 bytes) of a good frame is left in the buffer *)
+Lemma frame_ok_wait : forall G bs F dm P Q,
+  frame_ok G bs F dm -> F = P ++ Q -> Q <> [] -> (6 <= length P)%nat ->
+  decode G bs P true = Ok (None, 0%Z, None).
+Proof.
+  intros G bs F dm P Q Hok EF HQ HP.
+  destruct (frame_ok_prefix_marks G bs F dm P Q Hok EF HP) as [HmP HnP].
+  rewrite (decode_nocut G bs P true HmP HnP).
+  apply (wait_fields G bs F dm P Q (zlen P) 0 Hok EF HQ).
+  rewrite EF, zlen_app. unfold zlen. destruct Q; [contradiction | cbn [length]; lia].
 Qed.
 
 (* ------------------------------------------------------------------ the reader loop *)
@@ -361,6 +381,264 @@ Proof.
   intros G bs fms chunks HG H E Hc. apply chunk_independent; [apply encoder_frames_ok; assumption | assumption | assumption].
 Qed.
 
+(* ------------------------------------------------------------------ marker-free junk *)
+
+(* a pattern whose first character does not recur in it cannot overlap itself: an occurrence cannot
+   start inside marker-free junk and run into a following occurrence *)
+Lemma prefixb_no_border_aux : forall x q s w, ~ In x q -> prefixb q s = false -> prefixb q (s ++ x :: w) = false.
+Proof.
+  intros x q. induction q as [|y q IH]; intros s w Hx H; [discriminate|].
+  destruct s as [|c s]; cbn [app prefixb] in *.
+  - destruct (y =? x) eqn:E; [apply N.eqb_eq in E; subst; exfalso; apply Hx; left; reflexivity | reflexivity].
+  - destruct (y =? c); cbn [andb] in *; [|reflexivity]. apply IH; [intro I; apply Hx; right; exact I | exact H].
+Qed.
+
+Lemma find_sub_junk : forall x p' J X, ~ In x p' ->
+  find_sub (x :: p') J = None -> prefixb (x :: p') X = true ->
+  find_sub (x :: p') (J ++ X) = Some (length J).
+Proof.
+  intros x p' J X Hx. induction J as [|c J IH]; intros HJ HX.
+  - cbn [app length]. apply find_sub_head. exact HX.
+  - cbn [app length]. rewrite find_sub_cons in *.
+    destruct (prefixb (x :: p') (c :: J)) eqn:E; [discriminate|].
+    destruct (find_sub (x :: p') J) eqn:F; [discriminate|].
+    apply prefixb_spec in HX as [r Er]. subst X.
+    assert (E2 : prefixb (x :: p') (c :: J ++ (x :: p') ++ r) = false).
+    { cbn [prefixb] in *. destruct (x =? c); cbn [andb] in *; [|reflexivity].
+      cbn [app]. apply prefixb_no_border_aux; assumption. }
+    rewrite E2, (IH eq_refl) by (apply prefixb_app). reflexivity.
+Qed.
+
+Lemma MARK_no_border : ~ In 56 [61; 70; 73; 88; 46].
+Proof. intro I. cbn in I. repeat (destruct I as [I|I]; [discriminate|]). exact I. Qed.
+
+Lemma find_mark_junk : forall J X, find_sub MARK J = None -> prefixb MARK X = true ->
+  find_sub MARK (J ++ X) = Some (length J).
+Proof. intros J X. exact (find_sub_junk 56 [61; 70; 73; 88; 46] J X MARK_no_border). Qed.
+
+(* the buffer is junk followed by one candidate frame: decode works on the candidate, but compares
+   BodyLength with the length of the WHOLE buffer and reports offsets from its start *)
+Lemma decode_junk_nocut : forall G bs J X silent,
+  find_sub MARK J = None -> prefixb MARK X = true -> find_sub MARK (skipn 5 X) = None ->
+  decode G bs (J ++ X) silent = decode_fields G bs silent (zlen (J ++ X)) (length J) X (fields_of X).
+Proof.
+  intros G bs J X silent HJ Hp Hn. rewrite decode_eq, (find_mark_junk J X HJ Hp).
+  cbv zeta. rewrite skipn_exact, Hn, firstn_all. reflexivity.
+Qed.
+
+Lemma decode_junk_cut : forall G bs J F' P silent,
+  find_sub MARK J = None ->
+  prefixb MARK (F' ++ [1]) = true -> (5 <= length F')%nat -> find_sub MARK (skipn 5 (F' ++ [1])) = None ->
+  P = [] \/ prefixb MARK P = true ->
+  decode G bs (J ++ (F' ++ [1]) ++ P) silent =
+  decode_fields G bs silent (zlen (J ++ (F' ++ [1]) ++ P)) (length J) (F' ++ [1]) (fields_of (F' ++ [1])).
+Proof.
+  intros G bs J F' P silent HJ Hp Hl Hn HP.
+  rewrite decode_eq, (find_mark_junk J _ HJ (prefixb_app_r _ _ P Hp)).
+  cbv zeta. rewrite skipn_exact.
+  assert (Hcut : match find_sub MARK (skipn 5 ((F' ++ [1]) ++ P)) with
+                 | Some k => (k + 5)%nat | None => length ((F' ++ [1]) ++ P) end = length (F' ++ [1])).
+  { rewrite (skipn_app_le 5 F' [1] Hl) in Hn.
+    rewrite <- app_assoc. rewrite (skipn_app_le 5 F' ([1] ++ P) Hl). cbn [app].
+    pose proof (find_sub_none_prefix _ _ _ Hn) as Hn'.
+    rewrite (find_sub_sep 1 MARK _ P MARK_soh_free MARK_nonempty Hn').
+    rewrite !app_length, skipn_length. cbn [length].
+    destruct HP as [HP|HP].
+    - subst P. cbn. lia.
+    - rewrite (find_sub_head _ _ HP). cbn [option_map]. lia. }
+  rewrite Hcut, firstn_exact. reflexivity.
+Qed.
+
+(* junk in front of a complete frame is skipped with it (valid_idx): consumed = |junk| + |frame| *)
+Lemma frame_ok_decode_junk : forall G bs J F dm P silent,
+  find_sub MARK J = None -> frame_ok G bs F dm -> P = [] \/ prefixb MARK P = true ->
+  decode G bs (J ++ F ++ P) silent = Ok (Some dm, (zlen J + zlen F)%Z, Some F).
+Proof.
+  intros G bs J F dm P silent HJ [f1v [f2 [rest [bl [st H]]]]] HP. cbv zeta in H.
+  destruct H as [HF [Hsoh [Hmark [Hnom [Hbl [Hlen [Hloop [Hck Hdm]]]]]]]].
+  destruct (flat_last (field T8 bs :: field T9 f1v :: f2 :: rest) ltac:(discriminate)) as [F' EF'].
+  assert (EF : F = F' ++ [1]) by congruence.
+  assert (H5 : (5 <= length F')%nat).
+  { apply prefixb_length in Hmark. rewrite EF, app_length in Hmark. cbn in Hmark. lia. }
+  rewrite EF in Hmark, Hnom. rewrite EF at 1.
+  rewrite (decode_junk_cut G bs J F' P silent HJ Hmark H5 Hnom HP).
+  rewrite <- EF. rewrite HF at 3. rewrite (fields_of_flat _ Hsoh).
+  rewrite (decode_fields_ok G bs silent _ (length J) F T8 f1v f2 rest bl st); try assumption.
+  - rewrite Hlen, Hdm. reflexivity.
+  - apply cfreeb_spec. reflexivity.
+  - rewrite Hlen, !zlen_app. unfold zlen. lia.
+Qed.
+
+(* the same behind marker-free junk, as long as junk + prefix are shorter than the frame: the junk is
+   dropped, the prefix waits.  (When |junk| + |prefix| >= |frame| the completeness test passes wrongly:
+   junk_prefix_cut_refuted.) *)
+Lemma frame_ok_wait_junk : forall G bs J F dm P Q,
+  find_sub MARK J = None -> frame_ok G bs F dm -> F = P ++ Q -> Q <> [] -> (6 <= length P)%nat ->
+  (length J + length P < length F)%nat ->
+  decode G bs (J ++ P) true = Ok (None, zlen J, None).
+Proof.
+  intros G bs J F dm P Q HJ Hok EF HQ HP Hshort.
+  destruct (frame_ok_prefix_marks G bs F dm P Q Hok EF HP) as [HmP HnP].
+  rewrite (decode_junk_nocut G bs J P true HJ HmP HnP).
+  apply (wait_fields G bs F dm P Q _ (length J) Hok EF HQ).
+  rewrite zlen_app. unfold zlen. lia.
+Qed.
+
+(* what may follow the junk in one buffer: at least one whole frame and then an allowed remainder, or
+   no whole frame and a remainder that, together with the junk, is still shorter than its frame *)
+Definition junk_tail_ok (G : group_table) (bs : str) (J : str) (fms : list (str * message)) (P : str) : Prop :=
+  (fms <> [] /\ wait_ok G bs P)
+  \/ (fms = [] /\ (P = [] \/ exists F dm Q, frame_ok G bs F dm /\ F = P ++ Q /\ Q <> [] /\ (6 <= length P)%nat
+                                       /\ (length J + length P < length F)%nat)).
+
+Lemma decode_junk_only : forall G bs J, find_sub MARK J = None -> decode G bs J true = Ok (None, zlen J, None).
+Proof. intros G bs J H. rewrite decode_eq, H. reflexivity. Qed.
+
+Lemma reader_loop_junk : forall G bs J fms P, find_sub MARK J = None -> frames_ok G bs fms ->
+  junk_tail_ok G bs J fms P -> forall fuel acc, (length fms < fuel)%nat ->
+  reader_loop G bs fuel (J ++ concat (map fst fms) ++ P) acc = (P, rev acc ++ map swap fms, 0).
+Proof.
+  intros G bs J fms P HJ Hok Htail fuel acc Hfuel.
+  destruct fuel as [|f]; [lia|].
+  destruct Htail as [[Hne HP]|[Hnil HP]].
+  - destruct fms as [|[F dm] fms]; [contradiction|]. clear Hne.
+    inversion Hok as [|? ? HF Hok']; subst. cbn [fst snd] in HF.
+    cbn [map concat fst]. rewrite <- app_assoc. cbn [reader_loop].
+    set (R := concat (map fst fms) ++ P).
+    assert (HR : R = [] \/ prefixb MARK R = true).
+    { unfold R. destruct fms as [|[F2 dm2] fms2].
+      - cbn. apply (wait_ok_mark G bs P HP).
+      - right. inversion Hok' as [|? ? HF2 _]; subst. cbn [fst snd map concat] in *.
+        destruct (frame_ok_facts _ _ _ _ HF2) as [Hm _]. rewrite <- app_assoc. apply prefixb_app_r. assumption. }
+    rewrite (frame_ok_decode_junk G bs J F dm R true HJ HF HR).
+    destruct (frame_ok_facts _ _ _ _ HF) as [_ HL].
+    assert (Hpos : (0 <? zlen J + zlen F)%Z = true) by (unfold zlen; lia). rewrite Hpos.
+    assert (Hn : Z.to_nat (zlen J + zlen F) = length (J ++ F)) by (unfold zlen; rewrite app_length; lia).
+    rewrite Hn, app_assoc, skipn_exact.
+    unfold R. rewrite (reader_loop_frames G bs fms Hok' P HP f ((dm, F) :: acc)) by (cbn [length] in Hfuel; lia).
+    cbn [rev map swap fst snd]. rewrite <- app_assoc. reflexivity.
+  - subst fms. cbn [map concat app reader_loop].
+    assert (Hd : decode G bs (J ++ P) true = Ok (None, zlen J, None)).
+    { destruct HP as [E|[F [dm [Q [HF [EF [HQ [HL Hs]]]]]]]].
+      - subst P. rewrite app_nil_r. apply decode_junk_only. exact HJ.
+      - apply (frame_ok_wait_junk G bs J F dm P Q HJ HF EF HQ HL Hs). }
+    rewrite Hd. cbn [map]. rewrite app_nil_r.
+    destruct (0 <? zlen J)%Z eqn:E.
+    + unfold zlen. rewrite Nat2Z.id, skipn_exact. reflexivity.
+    + assert (J = []) by (unfold zlen in E; destruct J; [reflexivity | cbn in E; lia]). subst J. reflexivity.
+Qed.
+
+(* (2) junk at the front of a read: skipped together with the first whole frame that follows it *)
+Theorem junk_prefix_step : forall G bs buf chunk J fms P,
+  find_sub MARK J = None -> frames_ok G bs fms -> junk_tail_ok G bs J fms P ->
+  buf ++ chunk = J ++ concat (map fst fms) ++ P ->
+  reader_step G bs buf chunk = (P, map swap fms, 0).
+Proof.
+  intros G bs buf chunk J fms P HJ Hok Htail E. unfold reader_step. rewrite E.
+  rewrite (reader_loop_junk G bs J fms P HJ Hok Htail); [reflexivity|].
+  pose proof (frames_length G bs fms Hok). rewrite !app_length. lia.
+Qed.
+
+Lemma reader_run_app : forall G bs cs1 cs2 buf,
+  reader_run G bs buf (cs1 ++ cs2) =
+  let '(b1, o1, s1) := reader_run G bs buf cs1 in
+  let '(b2, o2, s2) := reader_run G bs b1 cs2 in (b2, o1 ++ o2, s1 ++ s2).
+Proof.
+  intros G bs cs1. induction cs1 as [|c cs1 IH]; intros cs2 buf.
+  - cbn [app reader_run]. destruct (reader_run G bs buf cs2) as [[b o] st]. reflexivity.
+  - cbn [app reader_run]. destruct (reader_step G bs buf c) as [[b1 o1] s1]. rewrite IH.
+    destruct (reader_run G bs b1 cs1) as [[b2 o2] s2]. destruct (reader_run G bs b2 cs2) as [[b3 o3] s3].
+    rewrite app_assoc. reflexivity.
+Qed.
+
+(* every read = marker-free junk (possibly empty) followed by whole frames (possibly none) *)
+Theorem junk_prefix_whole_frames : forall G bs (groups : list (str * list (str * message))),
+  Forall (fun g => find_sub MARK (fst g) = None /\ frames_ok G bs (snd g)) groups ->
+  reader_run G bs [] (map (fun g => fst g ++ concat (map fst (snd g))) groups)
+  = ([], map swap (concat (map snd groups)), map (fun _ => 0) groups).
+Proof.
+  intros G bs groups H. induction H as [|[J g] groups [HJ Hg] _ IH]; [reflexivity|].
+  cbn [map reader_run fst snd] in *.
+  assert (Ht : junk_tail_ok G bs J g []).
+  { destruct g; [right; split; [reflexivity | left; reflexivity] | left; split; [discriminate | left; reflexivity]]. }
+  rewrite (junk_prefix_step G bs [] _ J g [] HJ Hg Ht) by (rewrite app_nil_r; reflexivity).
+  rewrite IH. cbn [concat]. rewrite map_app. reflexivity.
+Qed.
+
+(* (1) junk-only reads at frame boundaries: the stream is cut at some frame boundaries into blocks, each
+   block is chunked with allowed cuts, and after each block any number of marker-free reads arrive *)
+Definition block_ok (G : group_table) (bs : str) (b : block) : Prop :=
+  frames_ok G bs (block_frames b)
+  /\ concat (block_chunks b) = concat (map fst (block_frames b))
+  /\ no_cut_inside_marker (map fst (block_frames b)) (block_chunks b) = true
+  /\ Forall (fun J => find_sub MARK J = None) (block_junk b).
+
+Lemma junk_reads_run : forall G bs junk, Forall (fun J => find_sub MARK J = None) junk ->
+  reader_run G bs [] junk = ([], [], map (fun _ => 0) junk).
+Proof.
+  intros G bs junk H. induction H as [|J junk HJ _ IH]; [reflexivity|].
+  cbn [reader_run map].
+  rewrite (junk_prefix_step G bs [] J J [] [] HJ (Forall_nil _)) by
+    (try (right; split; [reflexivity | left; reflexivity]); cbn; rewrite !app_nil_r; reflexivity).
+  rewrite IH. reflexivity.
+Qed.
+
+Theorem junk_reads_skipped : forall G bs (blocks : list block),
+  Forall (block_ok G bs) blocks ->
+  reader_run G bs [] (concat (map block_reads blocks))
+  = ([], map swap (concat (map block_frames blocks)), map (fun _ => 0) (concat (map block_reads blocks))).
+Proof.
+  intros G bs blocks H. induction H as [|b blocks [Hf [Hc [Hcut Hj]]] _ IH]; [reflexivity|].
+  cbn [map concat]. rewrite reader_run_app. unfold block_reads at 1. rewrite reader_run_app.
+  destruct (chunk_independent G bs (block_frames b) (block_chunks b) Hf Hc Hcut) as [H1 _].
+  rewrite H1, (junk_reads_run G bs (block_junk b) Hj), IH.
+  rewrite app_nil_r, !map_app. unfold block_reads. rewrite !map_app. reflexivity.
+Qed.
+
+(* ---------- the junk theorems on encoder frames ---------- *)
+
+Lemma enc_wait_ok_wait : forall G bs P, wf_table G = true -> enc_wait_ok G bs P -> wait_ok G bs P.
+Proof.
+  intros G bs P HG [E|[fm [Q [Hfm [EF [HQ HL]]]]]]; [left; assumption | right].
+  exists (fst fm), (snd fm), Q. repeat split; try assumption. apply encoder_frame_ok; assumption.
+Qed.
+
+Lemma enc_junk_tail : forall G bs J fms P, wf_table G = true -> enc_junk_tail_ok G bs J fms P -> junk_tail_ok G bs J fms P.
+Proof.
+  intros G bs J fms P HG [[Hne HP]|[Hnil HP]].
+  - left. split; [assumption | apply enc_wait_ok_wait; assumption].
+  - right. split; [assumption|]. destruct HP as [E|[fm [Q [Hfm [EF [HQ [HL Hs]]]]]]]; [left; assumption | right].
+    exists (fst fm), (snd fm), Q. repeat split; try assumption. apply encoder_frame_ok; assumption.
+Qed.
+
+Theorem junk_prefix_same_read_enc : forall G bs buf chunk J fms P,
+  wf_table G = true -> find_sub MARK J = None -> Forall (encoder_frame G bs) fms ->
+  enc_junk_tail_ok G bs J fms P -> buf ++ chunk = J ++ concat (map fst fms) ++ P ->
+  reader_step G bs buf chunk = (P, map delivered fms, 0).
+Proof.
+  intros G bs buf chunk J fms P HG HJ Hf Ht E.
+  apply (junk_prefix_step G bs buf chunk J fms P HJ (encoder_frames_ok G bs fms HG Hf) (enc_junk_tail G bs J fms P HG Ht) E).
+Qed.
+
+Theorem junk_prefix_whole_frames_enc : forall G bs (groups : list (str * list (str * message))),
+  wf_table G = true ->
+  Forall (fun g => find_sub MARK (fst g) = None /\ Forall (encoder_frame G bs) (snd g)) groups ->
+  reader_run G bs [] (map (fun g => fst g ++ concat (map fst (snd g))) groups)
+  = ([], map delivered (concat (map snd groups)), map (fun _ => 0) groups).
+Proof.
+  intros G bs groups HG H. apply junk_prefix_whole_frames. eapply Forall_impl; [|exact H].
+  intros g [A B]. split; [assumption | apply encoder_frames_ok; assumption].
+Qed.
+
+Theorem junk_reads_skipped_enc : forall G bs (blocks : list block),
+  wf_table G = true -> Forall (enc_block_ok G bs) blocks ->
+  reader_run G bs [] (concat (map block_reads blocks))
+  = ([], map delivered (concat (map block_frames blocks)), map (fun _ => 0) (concat (map block_reads blocks))).
+Proof.
+  intros G bs blocks HG H. apply junk_reads_skipped. eapply Forall_impl; [|exact H].
+  intros b [A [B [C D]]]. split; [apply encoder_frames_ok; assumption | split; [assumption | split; assumption]].
+Qed.
+
 (* ------------------------------------------------------------------ D6 witnesses on encoder frames *)
 From Coq Require Import String Ascii.
 From AFGen Require Import GenGroups.
@@ -431,4 +709,38 @@ Lemma chunks_nonvacuous :
   /\ no_cut_inside_marker (List.map fst ex_stream) chunks = true
   /\ reader_run GenGroups.table beginstring [] chunks
      = ([], [(ex_dA, ex_FA); (ex_dB, ex_FB)], [0; 0; 0; 0; 0]).
+Proof. cbv zeta. repeat split; vm_compute; reflexivity. Qed.
+
+(* D8 (junk prefix counted in the completeness test): junk J in front of a frame that is cut k bytes
+   before its end, 2 <= k <= |J|: the test  BodyLength-derived length <= len(buffer)  passes, the truncated
+   frame fails its checksum and is dropped.  k = |J| + 1 is the first cut that waits correctly.
+   (k = 1 happens to work: only the final SOH is missing and is made up for by the over-long skip.) *)
+Lemma junk_prefix_cut_refuted : forall k, In k [2; 3]%nat ->
+  find_sub MARK ex_garbage = None /\ List.length ex_garbage = 3%nat /\ List.length ex_FA = 87%nat
+  /\ reader_run GenGroups.table beginstring []
+       [ex_garbage ++ firstn (87 - k) ex_FA; skipn (87 - k) ex_FA ++ ex_FB] = ([], [(ex_dB, ex_FB)], [0; 0])
+  /\ reader_run GenGroups.table beginstring []
+       [ex_garbage ++ firstn (87 - 4) ex_FA; skipn (87 - 4) ex_FA ++ ex_FB]
+     = ([], [(ex_dA, ex_FA); (ex_dB, ex_FB)], [0; 0])
+  /\ reader_run GenGroups.table beginstring [] [ex_garbage ++ ex_FA ++ ex_FB]
+     = ([], [(ex_dA, ex_FA); (ex_dB, ex_FB)], [0]).
+Proof.
+  intros k Hk. cbn [In] in Hk.
+  repeat (destruct Hk as [Hk|Hk]; [subst k; repeat split; vm_compute; reflexivity|]). destruct Hk.
+Qed.
+
+(* non-vacuity of the junk theorems: junk reads (one ending in "8=FI", a proper prefix of the marker) before,
+   between and after chunked frames; junk in front of whole frames followed by the start of the next *)
+Lemma junk_nonvacuous :
+  let j2 : str := [120; 56; 61; 70; 73] in
+  find_sub MARK j2 = None
+  /\ reader_run GenGroups.table beginstring []
+       (List.concat (List.map block_reads
+          [([], [], [ex_garbage; j2]);
+           ([(ex_FA, ex_dA)], [firstn 11 ex_FA; skipn 11 ex_FA], [j2]);
+           ([(ex_FB, ex_dB)], [ex_FB], [ex_garbage; ex_garbage])]))
+     = ([], [(ex_dA, ex_FA); (ex_dB, ex_FB)], [0; 0; 0; 0; 0; 0; 0; 0])
+  /\ reader_step GenGroups.table beginstring [] (j2 ++ ex_FA ++ ex_FB ++ firstn 10 ex_FA)
+     = (firstn 10 ex_FA, [(ex_dA, ex_FA); (ex_dB, ex_FB)], 0)
+  /\ reader_step GenGroups.table beginstring [] (ex_garbage ++ firstn 83 ex_FA) = (firstn 83 ex_FA, [], 0).
 Proof. cbv zeta. repeat split; vm_compute; reflexivity. Qed.
